@@ -24,6 +24,12 @@ type FuncReport struct {
 
 func newXlat(pr *Prog, eff *Effects) *Xlat {
 	ctx := NewCtx()
+	x := newXlat2(pr, eff, ctx)
+	activeTM = x.tm
+	return x
+}
+
+func newXlat2(pr *Prog, eff *Effects, ctx *Ctx) *Xlat {
 	return &Xlat{prog: pr, ctx: ctx, tm: NewTypeMap(ctx), counts: map[string]int{}, eff: eff,
 		used: map[string]bool{}, inlined: map[string]bool{}, havoced: map[string]bool{}, models: map[string]bool{},
 		specInfos: map[string]*specFnInfo{}, specPlaceholder: map[string]bool{}}
